@@ -36,6 +36,15 @@ def toProtobufDRR : List String := ["return"]
 def toProtobufDRRReturns : List String := ["&pb.DataRowRecord{…}"]
 /-- field paths toProtobufDRR reads off the SDK's record (each pointer hop is a nil dereference if absent) -/
 def toProtobufDRRReads : List String := ["drr.Data", "drr.Key.Created", "drr.Key.EncryptedKey", "drr.Key.ParentKeyMeta.Created", "drr.Key.ParentKeyMeta.ID"]
+/-! response literals and the record mapping: `toProtobufDRR` and `fromProtobufDRR` are inverse field by field -/
+/-- the composite literals defaultHandler.Encrypt returns, flattened to field-path:value -/
+def encryptFields : List String := ["Response.EncryptResponse.DataRowRecord:toProtobufDRR(drr)"]
+/-- the composite literals defaultHandler.Decrypt returns, flattened to field-path:value -/
+def decryptFields : List String := ["Response.DecryptResponse.Data:data"]
+/-- the composite literals fromProtobufDRR returns, flattened to field-path:value -/
+def fromProtobufDRRFields : List String := ["Data:drr.GetData()", "Key.EncryptedKey:drr.GetKey().GetKey()", "Key.Created:drr.GetKey().GetCreated()", "Key.ParentKeyMeta.ID:drr.GetKey().GetParentKeyMeta().GetKeyId()", "Key.ParentKeyMeta.Created:drr.GetKey().GetParentKeyMeta().GetCreated()"]
+/-- the composite literals toProtobufDRR returns, flattened to field-path:value -/
+def toProtobufDRRFields : List String := ["Data:drr.Data", "Key.Created:drr.Key.Created", "Key.Key:drr.Key.EncryptedKey", "Key.ParentKeyMeta.Created:drr.Key.ParentKeyMeta.Created", "Key.ParentKeyMeta.KeyId:drr.Key.ParentKeyMeta.ID"]
 def uninitializedText : String := "newErrorResponse(\"session not yet initialized\")"
 def alreadyInitializedText : String := "newErrorResponse(\"session has already been initialized\")"
 /-- appencryption.proto: (message, field, number, type, oneof or "") -/
